@@ -152,14 +152,12 @@ class JsonRPCServer:
         self.protocol.set_writer(writer)
 
         try:
-            asyncio.run(
-                run(
-                    stop_event=self._stop_event,
-                    reader=stdin or sys.stdin.buffer,
-                    protocol=self.protocol,
-                    logger=logger,
-                    error_handler=self._report_server_error,
-                )
+            run(
+                stop_event=self._stop_event,
+                reader=stdin or sys.stdin.buffer,
+                protocol=self.protocol,
+                logger=logger,
+                error_handler=self._report_server_error,
             )
         except BrokenPipeError:
             logger.error("Connection to the client is lost! Shutting down the server.")
